@@ -14,7 +14,7 @@ global size_of usize == 8;
 pub type LKey = (i16, i16);
 /// the (layer number, purpose number) the library's layer table assigns to a (layer key, purpose) pair — assumption (the lookup block is modelled)
 pub uninterp spec fn nums(k: LayerKey, p: LayerPurpose) -> Option<LKey>;
-impl ProtoExporter {
+impl<'lib> ProtoExporter<'lib> {
     /// R5: the four-line lookup `self.lib.layers.read()?` / `.get(elem.layer).ok_or(..)?` / `layer.layernum` / `layer.num(&elem.purpose).ok_or(..)?.clone()`
     #[verifier::external_body]
     fn vp_layer_nums(&mut self, elem: &Element) -> (r: LayoutResult<LKey>)
@@ -107,7 +107,7 @@ proof fn lemma_group_absent(es: Seq<Element>, k: LKey, o: Seq<LKey>)
         }
     }
 }
-impl ProtoExporter {
+impl<'lib> ProtoExporter<'lib> {
 //@ fn layout21raw/src/proto.rs :: impl<'lib> ProtoExporter<'lib> :: fn export_layout
 //@   ret r
 //@   sub R6 /cell\s*\.insts\s*\.iter\(\)\s*\.map\(\|c\| self\.export_instance\(c\)\)\s*\.collect::<Result<Vec<_>, _>>\(\)\?/ => self.vp_export_instances(&cell.insts)?
